@@ -528,10 +528,22 @@ class KeyPressEvent:
         if self._arg == "-":
             return -1
 
-        result = int(self._arg or 1)
+        arg = self._arg or "1"
+        negative = arg.startswith("-")
+        digits = arg.lstrip("-").lstrip("0") or "0"
+
+        # Don't exceed a million. More than seven significant digits certainly
+        # do: that is decided on their number, without converting them.
+        # (`int()` raises `ValueError` for a string of more than
+        # `sys.get_int_max_str_digits()` digits - 4300 by default, leading
+        # zeros included - and a user can type that many.)
+        if len(digits) > 7:
+            return -1 if negative else 1
+
+        result = -int(digits) if negative else int(digits)
 
         # Don't exceed a million.
-        if int(result) >= 1000000:
+        if result >= 1000000:
             result = 1
 
         return result
